@@ -154,10 +154,60 @@ def run(chk, tier):
         chk.ok("R16.6", "conversion only within one quantity", sorted(c[0] for c in cats.values()))
     else:
         chk.bad("R16.6", "conversion only within one quantity", "success sites of uom_convert_internal are reached under unit categories %s; a conversion must require the same quantity on both sides" % sorted(map(str, cats.values())), ub.file)
+    # ---- arithmetic rows of the value layer (symbolic execution of Add / Sub over the time variants)
+    chk.rule("R16.7", "time arithmetic rows: t + d and d + t add d to t, t - d subtracts d from t, t1 - t2 is the signed distance from t2 to t1, d1 +/- d2 keep operand order; "
+                      "each through chrono's checked / exact operation on the full-resolution payloads, None -> error")
+    import semtables
+    WANT = {
+        ("Add", "TimeStamp", "Duration"): r"DateTime::checked_add_signed\(ta\.TimeStamp\.0, tb\.Duration\.0\)",
+        ("Add", "Duration", "TimeStamp"): r"DateTime::checked_add_signed\(tb\.TimeStamp\.0, ta\.Duration\.0\)",
+        ("Add", "Duration", "Duration"): r"TimeDelta::checked_add\((ta\.Duration\.0, tb\.Duration\.0|tb\.Duration\.0, ta\.Duration\.0)\)",
+        ("Sub", "TimeStamp", "Duration"): r"DateTime::checked_sub_signed\(ta\.TimeStamp\.0, tb\.Duration\.0\)",
+        ("Sub", "Duration", "Duration"): r"TimeDelta::checked_sub\(ta\.Duration\.0, tb\.Duration\.0\)",
+        ("Sub", "TimeStamp", "TimeStamp"): r"DateTime::signed_duration_since\(ta\.TimeStamp\.0, tb\.TimeStamp\.0\)",
+    }
+    WRAP = r"^(?:CelValue::from_timestamp|CelValue::from_duration|CelValue::Duration|CelValue::TimeStamp|From::from<CelValue><-[\w:<>]+|Into::into<T><-U)\((%s)(\.Some\.0)?\)$"
+    n_time = 0
+    for op_, meth_ in (("Add", "add"), ("Sub", "sub")):
+        ob, table_ = semtables.binop_table(F, op_, meth_)
+        for (va, vb), rows_ in sorted(table_.items()):
+            if va not in ("TimeStamp", "Duration") or vb not in ("TimeStamp", "Duration"):
+                continue
+            key_ = "%s|%s,%s" % (op_, va, vb)
+            want_ = WANT.get((op_, va, vb))
+            vals_ = [(pr, rr) for pr, rr in rows_ if not rr.startswith("CelValue::from_err(")]
+            if want_ is None:
+                # a pair with no rule in the property (duration - timestamp, timestamp + timestamp): accepted when it is an error, reported as outside otherwise
+                if vals_:
+                    chk.ok("R16.7", key_, "not covered by the property (yields %s)" % vals_[0][1][:60])
+                else:
+                    chk.ok("R16.7", key_, "error")
+                continue
+            n_time += 1
+            probs_ = []
+            if not vals_:
+                probs_.append("no value-producing case")
+            for pr, rr in vals_:
+                m_ = re.match(WRAP % want_, rr)
+                if not m_:
+                    probs_.append("yields %s" % rr[:110])
+                    continue
+                partial = "checked_" in m_.group(1)
+                some = any(p_[0] == "Some" for p_ in pr)
+                if partial and not (some and m_.group(m_.lastindex) == ".Some.0"):
+                    probs_.append("uses the result of a partial operation without testing it: %s" % rr[:80])
+            for pr, rr in rows_:
+                if rr.startswith("CelValue::from_err(") and not any(p_[0] == "None" for p_ in pr) and "checked_" in want_:
+                    probs_.append("fails on a path where the operation succeeded")
+            if probs_:
+                chk.bad("R16.7", key_, "`%s` on (%s, %s): %s; expected %s" % (op_, va, vb, "; ".join(sorted(set(probs_))), want_.replace("\\", "")), ob.file)
+            else:
+                chk.ok("R16.7", key_, want_.replace("\\", ""))
+    chk.floor("R16.7", "time arithmetic rows", n_time, 6)
     chk.analysed["accessor_overloads"] = n
     return chk.finish(
         "Sibling agreement and frozen accessor rows for the ten calendar accessors (UTC vs zoned overloads, from resolved callees), checked chrono "
         "arithmetic in +/-, zone lookup. Unit tables: constructor / reader unit agreement per variant (generic arguments of the uom calls), both names parsed before success, "
-        "same-quantity arms only. Decides wiring and bases; does not decide the calendar laws themselves nor uom's numeric factors.",
+        "same-quantity arms only; decision rows of timestamp / duration + and - by symbolic execution. Decides wiring, operand roles and bases; does not decide the calendar laws themselves nor uom's numeric factors.",
         ["chrono accessor contracts (month0, ordinal0, num_days_from_sunday, ...)", "rustc trait resolution"], ["default features"],
-        technique="sibling cross-check + frozen callee rows over resolved MIR callees")
+        technique="sibling cross-check + frozen callee rows over resolved MIR callees + symbolic-execution rows of time arithmetic")
